@@ -36,7 +36,19 @@ fn report<'a, B: DecisionNNFBuilder<'a>>(b: &'a B, cnf: &rsdd::repr::Cnf, n: usi
 }
 
 pub fn td_line(rng: &mut Rng, maxvars: usize) -> String {
-    let raw = gen_cnf(rng, maxvars, 2 * maxvars + 2, true);
+    let mut raw = gen_cnf(rng, maxvars, 2 * maxvars + 2, true);
+    // directed family: unit clauses on top of an unsatisfiable core whose refutation needs a
+    // decision (all four sign combinations over two variables)
+    if maxvars >= 3 && rng.chance(1, 6) {
+        let vs = rng.perm(maxvars);
+        let (u, a, b) = (vs[0], vs[1], vs[2]);
+        raw.truncate(rng.below(3) as usize);
+        raw.push(vec![(u, rng.coin())]);
+        for (pa, pb) in [(true, true), (true, false), (false, true), (false, false)] {
+            raw.push(vec![(a, pa), (b, pb)]);
+        }
+        rng.shuffle(&mut raw);
+    }
     let cnf = to_cnf(&raw);
     let n = cnf.num_vars();
     let order = rng.perm(n);
